@@ -695,6 +695,13 @@ pub fn gen_project(rng: &mut Rng, o: &GenOpts) -> Project {
                 for _ in 0..k {
                     hdrs.push(format!("h{}.h", rng.below(4)));
                 }
+                // the classic: a generated header that is only an order-only input in the
+                // manifest and is reported by the compiler (an ordering path exists)
+                for f in &s.oos {
+                    if real_outs.contains(f) && rng.chance(1, 2) {
+                        hdrs.push(f.clone());
+                    }
+                }
                 s.extra_reads = hdrs;
             }
         }
